@@ -70,7 +70,7 @@ def array_data_frame_to_triangle(
                 "At least two periods are required to infer period resolution."
             )
         period_resolution = int(
-            calculate_dev_lag(df["period"].iloc[0], df["period"].iloc[1])
+            round(calculate_dev_lag(df["period"].iloc[0], df["period"].iloc[1]))
         )
     if eval_resolution is None:
         try:
